@@ -1,8 +1,10 @@
 #!/bin/bash
 # run every check's quick tier (or $1 = thorough) on the unchanged tree; print one line per property
+# IDS="12 13 02" restricts / orders the properties
 cd "$(dirname "$0")/.."
 tier=${1:-quick}
-for i in 01 02 03 04 05 06 07 08 09 10 11 12 13 14 15 16 17 18 19 20; do
+for i in ${IDS:-01 02 03 04 05 06 07 08 09 10 11 12 13 14 15 16 17 18 19 20}; do
   out=$(/venv/bin/python check.py C$i --tier $tier 2>&1); code=$?
   echo "C$i exit=$code $(echo "$out" | grep -v '^KNOWN-FINDING' | tail -1 | cut -c1-200)"
+  if [ $code -ne 0 ]; then echo "$out" | grep -E '^(FAIL|VIOLATION|HARNESS|INCONCLUSIVE)' | head -8 | cut -c1-400; fi
 done
